@@ -23,7 +23,9 @@ REGISTRATION = {
             "and the property itself is evaluated on the real store with real SHA-256. The fault alphabet covers "
             "5xx/404/401 with arbitrary challenges, token failures, transport errors, wrong Content-Length, truncated / "
             "reset / stalled / flipped / Range-ignoring / error-page bodies, malformed and looping redirects with the "
-            "client's redirect budget, redirects to dead hosts, caller cancellation inside a chunk read, resume from 1-17 "
+            "client's redirect budget, redirects to dead hosts, caller cancellation inside a chunk read, at the last byte of a "
+            "layer and at the progress callbacks between PullModel's store effects, two overlapping pulls sharing a layer "
+            "(joining a transfer in flight / arriving during verification, either cancelled), resume from 1-17 "
             "part records (Glob order) and from a real interrupted > 1 GB multi-part download. A death of the process "
             "running the pull is an L2 failure with the running case as replay (the driver is restarted after it).",
     "design_ref": "DESIGN.md §5 C03",
@@ -32,7 +34,7 @@ REGISTRATION = {
             "atomic rename), wall-clock behaviour (run in fake time; stalls that are never detected, i.e. a "
             "peer that sends no byte at all, hang the real code forever and are excluded), goroutine "
             "interleavings of concurrent parts (parts are independent in the model; scripts with stalls are "
-            "only generated for single-part layers), concurrent pulls of one digest (blobDownloadManager), "
+            "only generated for single-part layers), concurrent pulls beyond the scripted two-pull interleavings, "
             "caller cancellation before the download goroutine has started (F21: replayed by a dedicated probe, not in the "
             "model). Multi-part plans from HEAD are "
             "compared with the real Prepare as a table; multi-part downloads are exercised through resume "
@@ -140,7 +142,7 @@ def run(ctx):
     ctx.assumptions += [
         "SHA-256 is an uninterpreted function hash : Bytes -> Digest (no injectivity assumed)",
         "POSIX program-order file effects, atomic rename; no crash inside an attempt (crash points are C12)",
-        "one pull at a time per digest; the caller cancels only inside a chunk read (cancellation before the download goroutine has started is probed separately: F21)",
+        "at most two overlapping pulls, sharing only their first layer, in four scripted interleavings; caller cancellation at chunk reads and progress callbacks",
         "a stalling peer eventually sends an error or is detected (a peer that never sends a byte hangs the code)",
     ]
     return ctx.finish(
